@@ -170,7 +170,43 @@ class Evaluator:
         if h == "res":
             if t in loc:
                 return loc[t]
+            if t[1] in self.sx.loops and self.sx.loops[t[1]].kind == "for":
+                r = self._loop(self.sx.loops[t[1]], loc)      # evaluate the (nested) loop on demand
+                if r:
+                    raise Crash(r[1], "raise inside a loop")
+                if t in loc:
+                    return loc[t]
             raise EvalUnsupported("loop result %s used outside an evaluated loop" % show(t))
+        if h == "dict":
+            return {self.ev(k, loc): self.ev(v, loc) for k, v in t[1]}
+        if h == "setitem":
+            base = self.ev(t[1], loc)
+            k_, v_ = self.ev(t[2], loc), self.ev(t[3], loc)
+            try:
+                new = dict(base) if isinstance(base, dict) else list(base)
+                new[k_] = v_
+                return new
+            except (TypeError, IndexError, KeyError) as e:
+                raise Crash(type(e).__name__, show(t))
+        if h == "cat":
+            a_, b_ = self.ev(t[1], loc), self.ev(t[2], loc)
+            try:
+                return list(a_) + list(b_)
+            except TypeError:
+                raise Crash("TypeError", show(t))
+        if h == "mcall":
+            recv = self.ev(t[1], loc)
+            args = [self.ev(a, loc) for a in t[3]]
+            m = t[2]
+            try:
+                if isinstance(recv, dict) and m in ("items", "keys", "values", "get"):
+                    r_ = getattr(recv, m)(*args)
+                    return list(r_) if m != "get" else r_
+                if isinstance(recv, (list, tuple)) and m in ("index", "count"):
+                    return getattr(recv, m)(*args)
+            except (TypeError, ValueError, KeyError) as e:
+                raise Crash(type(e).__name__, show(t))
+            raise EvalUnsupported("method call %s" % show(t)[:60])
         if h == "fstr" or h == "strcat":
             return "<text>"
         raise EvalUnsupported("term %s" % show(t))
